@@ -276,14 +276,17 @@ def step (w : World) (line : String) : World × String :=
         ({ w with shards := w.shards.set si { sh with accts := sh.accts.set addr x' } }, "acct ok")
     | _ => (w, "badop")
   else if cmd == "epoch" then
-    match rest with
-    | [sel, n] =>
+    -- an optional third argument is the notification's timestamp: activation does not depend on it
+    let confirm := fun (sel n : String) =>
       let e := n.toNat!
       let w' := (allShards w sel).foldl (fun w si =>
         match w.shards[si]? with
         | some sh => { w with shards := w.shards.set si { sh with active := epochConfirmed w.activation e } }
         | none => w) w
       (w', "epoch ok")
+    match rest with
+    | [sel, n] => confirm sel n
+    | [sel, n, _ts] => confirm sel n
     | _ => (w, "badop")
   else if cmd == "gasmap" then
     match rest with
